@@ -209,7 +209,7 @@ def gen_pose(rng, partial=0.3):
     return rot, tr
 
 
-def gen_dataset(rng, present=None, size=None, nested_rigs=False, rig_order=None):
+def gen_dataset(rng, present=None, size=None, nested_rigs=False, rig_order=None, multi_device=False):
     """A well-formed dataset in plain form.  present: set of part names (None = each with probability 1/2,
     then closed under the format's dependencies); size: max rows per part."""
     import kapture
@@ -254,11 +254,15 @@ def gen_dataset(rng, present=None, size=None, nested_rigs=False, rig_order=None)
     # sensors: make sure every record kind that is present can have a sensor of its type
     sensors = []
     by_type = {}
-    wanted = [REC_SENSOR_TYPE[p] for p in REC_SENSOR_TYPE if p in present and rng.random() < 0.85]
+    # several devices of the same kind are common (two phones, a stereo pair): 1-3 sensors per record kind present
+    wanted = []
+    for p_ in REC_SENSOR_TYPE:
+        if p_ in present and (multi_device or rng.random() < 0.85):
+            wanted += [REC_SENSOR_TYPE[p_]] * (rng.randint(2, 3) if multi_device else rng.choice([1, 1, 2, 3]))
     wanted += [rng.choice(['camera', 'depth', 'lidar', 'wifi', 'gnss', 'odometry', 'pressure', 'my sensor'])
                for _ in range(n_rows())]
     rng.shuffle(wanted)
-    for st in wanted[:max(size, 12) if size else 3]:
+    for st in (wanted if multi_device else wanted[:max(size, 14) if size else 3]):
         sid = fresh_id()
         name = rng.choice([None, '', gen_ident(rng, allow_empty=True), gen_ident(rng)])
         if st in ('camera', 'depth'):
@@ -306,7 +310,14 @@ def gen_dataset(rng, present=None, size=None, nested_rigs=False, rig_order=None)
     cur[0] = 'trajectories'
     if 'trajectories' in present:
         rows, seen = [], set()
-        if devices:
+        if devices and multi_device:
+            for ts in dict.fromkeys(ts_pool[:3]):
+                for dev in devices[:4]:
+                    seen.add((ts, dev))
+                    rot, tr = gen_pose(rng)
+                    rows.append([ts, dev, rot, tr])
+            rng.shuffle(rows)
+        elif devices:
             for _ in range(n_rows()):
                 k = (pick_ts(), rng.choice(devices))
                 if k in seen:
@@ -320,6 +331,15 @@ def gen_dataset(rng, present=None, size=None, nested_rigs=False, rig_order=None)
         cur[0] = part
         ids = by_type.get(REC_SENSOR_TYPE[part], [])
         keys, seen = [], set()
+        if ids and multi_device:
+            # every device at each of a few common timestamps, rows interleaved in some order
+            keys = [(ts, dev) for ts in dict.fromkeys(ts_pool[:3]) for dev in ids]
+            c = rng.choice(['timestamp-major', 'device-major', 'shuffled'])
+            if c == 'device-major':
+                keys.sort(key=lambda k: ids.index(k[1]))
+            elif c == 'shuffled':
+                rng.shuffle(keys)
+            return keys
         if ids:
             for _ in range(n_rows()):
                 k = (pick_ts(), rng.choice(ids))
@@ -511,6 +531,80 @@ def build_kapture(d):
                 o.add(pid, kt, img, fid)
         k.observations = o
     return k
+
+
+def gen_mutations(rng, d):
+    """in-memory edits through the public API, applied to the objects built from d AFTER they have been saved once"""
+    muts = []
+    scale = lambda: hx(rng.choice([0.5, 0.25, -0.5, 0.001, 0.75]))
+    if d['trajectories']:
+        muts.append({'op': 'rescale_trajectories', 's': scale()})
+        if rng.random() < 0.5:
+            rot, tr = gen_pose(rng, partial=0.2)
+            muts.append({'op': 'replace_pose', 'i': rng.randrange(len(d['trajectories'])), 'rot': rot, 'tr': tr})
+    if d['rigs']:
+        muts.append({'op': 'rescale_rig_pose', 'i': rng.randrange(len(d['rigs'])), 's': scale()})
+    if d['records_gnss'] and rng.random() < 0.7:
+        muts.append({'op': 'edit_gnss', 'i': rng.randrange(len(d['records_gnss'])), 'x': hx(gen_float(rng))})
+    if d['records_wifi'] and rng.random() < 0.7:
+        muts.append({'op': 'edit_wifi', 'i': rng.randrange(len(d['records_wifi'])), 'rssi': hx(gen_float(rng)),
+                     'frequency': rng.randint(0, 6 * 10 ** 9)})
+    if d['records_lidar'] and rng.random() < 0.7:
+        muts.append({'op': 'edit_lidar', 'i': rng.randrange(len(d['records_lidar'])), 'path': gen_path(rng, '.pcd')})
+    if rng.random() < 0.6:
+        muts.append({'op': 'add_sensor', 'id': 'added ' + gen_ident(rng, fancy=0.2), 'name': rng.choice([None, 'new'])})
+    rng.shuffle(muts)
+    return muts
+
+
+_MUT_PART = {'rescale_trajectories': 'trajectories', 'replace_pose': 'trajectories', 'rescale_rig_pose': 'rigs',
+             'edit_gnss': 'records_gnss', 'edit_wifi': 'records_wifi', 'edit_lidar': 'records_lidar', 'add_sensor': 'sensors'}
+
+
+def mutation_applies(m, d):
+    """the part the mutation edits is present in (this sub-dataset of) d"""
+    return d.get(_MUT_PART[m['op']]) is not None
+
+
+def apply_mutations(k, d, muts):
+    import kapture
+    for m in muts:
+        op = m['op']
+        if op == 'rescale_trajectories':
+            kapture.trajectory_rescale_inplace(k.trajectories, fx(m['s']))
+        elif op == 'replace_pose':
+            ts, dev = d['trajectories'][m['i']][:2]
+            k.trajectories[ts, dev] = _pose(m['rot'], m['tr'])
+        elif op == 'rescale_rig_pose':
+            rid, sid = d['rigs'][m['i']][:2]
+            k.rigs[rid, sid].rescale(fx(m['s']))
+        elif op == 'edit_gnss':
+            ts, dev = d['records_gnss'][m['i']][:2]
+            k.records_gnss[ts, dev].x = fx(m['x'])
+        elif op == 'edit_wifi':
+            ts, dev, bssid = d['records_wifi'][m['i']][:3]
+            sig = k.records_wifi[ts, dev][bssid]
+            sig.rssi = fx(m['rssi'])
+            sig.frequency = m['frequency']
+        elif op == 'edit_lidar':
+            ts, dev = d['records_lidar'][m['i']][:2]
+            k.records_lidar[ts, dev] = m['path']
+        elif op == 'add_sensor':
+            if m['id'] not in k.sensors and (k.rigs is None or m['id'] not in k.rigs):
+                k.sensors[m['id']] = kapture.Sensor('pressure', [], m['name'])
+        else:
+            raise KeyError(op)
+
+
+def touch(k):
+    """what any tool does between two saves: print, compare, read the raw pose lists"""
+    for part in (k.trajectories, k.rigs):
+        if part is not None:
+            repr(part)
+            for a, b, pose in __import__('kapture').flatten(part):
+                pose.r_raw, pose.t_raw
+                if pose.r is not None and pose.t is not None:      # PoseTransform.__eq__ does not support partial poses
+                    pose == pose
 
 
 class TypeErrorInLoaded(Exception):
@@ -905,9 +999,11 @@ def p3d_float_bits(d):
 
 
 # ------------------------------------------------------------------------------------------------ running a data case
-def run_data_case(d, tmp, name='k1'):
+def run_data_case(d, tmp, name='k1', mutations=None):
     """save with the real kapture_to_dir, load with the real kapture_from_dir, save again.
-    Returns observations (JSON-able)."""
+    With mutations: the objects are first saved to another directory, edited in memory through the public API, and
+    THEN saved / loaded; obs['current'] is the content held in memory at that moment (read through the accessors),
+    which is what the save / load cycle is judged against.  Returns observations (JSON-able)."""
     import kapture.io.csv as kcsv
     root = os.path.join(tmp, name)
     root2 = os.path.join(tmp, name + '_resaved')
@@ -916,6 +1012,16 @@ def run_data_case(d, tmp, name='k1'):
     obs = {'save_exc': None, 'load_exc': None, 'files': None, 'loaded': None, 'resave_files': None, 'resave_exc': None}
     try:
         k = build_kapture(d)
+        if mutations is not None:
+            root0 = os.path.join(tmp, name + '_first')
+            shutil.rmtree(root0, ignore_errors=True)
+            os.makedirs(root0)
+            kcsv.kapture_to_dir(root0, k)
+            touch(k)
+            shutil.rmtree(root0, ignore_errors=True)
+            apply_mutations(k, d, mutations)
+            d = extract(k)
+            obs['current'] = d
         os.makedirs(root, exist_ok=True)
         kcsv.kapture_to_dir(root, k)
         write_data_files(d, root)
